@@ -78,7 +78,7 @@ class Recorder:
         o_update = TS.update
 
         @functools.wraps(o_update)
-        def w_update(self, state, running_state, dt, **kw):
+        def w_update(self, state, running_state, dt, *xa, **kw):
             ctx = {
                 "index": rec.update_index,
                 "stage": rec.stage,
@@ -99,7 +99,7 @@ class Recorder:
             rec.emit("on_update_begin", ctx)
             rec.fail("update_entry", stage=rec.stage, step=ctx["step"])
             try:
-                res = o_update(self, state, running_state, dt, **kw)
+                res = o_update(self, state, running_state, dt, *xa, **kw)
             except BaseException as exc:
                 rec.emit("on_update_end", ctx, None, exc)
                 rec.cur = None
@@ -147,8 +147,9 @@ class Recorder:
         o_obs = TS.solve_for_observables
 
         @functools.wraps(o_obs)
-        def w_obs(self, psi, dA_dt):
-            out = o_obs(self, psi, dA_dt)
+        def w_obs(self, psi, dA_dt, *xa, **xk):
+            # (extra arguments a refactoring may add are passed through: the wrapper observes, it does not fix the signature)
+            out = o_obs(self, psi, dA_dt, *xa, **xk)
             rec.emit("on_observables", rec.cur, psi, dA_dt, out)
             if rec.cur is not None:
                 # a point in the MIDDLE of update(): the n-th evaluation of the observables (n > 0: later screening iterations)
@@ -162,12 +163,12 @@ class Recorder:
         o_ind = TS.get_induced_vector_potential
 
         @functools.wraps(o_ind)
-        def w_ind(self, current_density, A_induced_vals, velocity):
+        def w_ind(self, current_density, A_induced_vals, velocity, *xa, **xk):
             A_prev = _copy(A_induced_vals[-1])
             buf = getattr(self, "new_A_induced", None)
             if isinstance(buf, np.ndarray):
                 buf[...] = np.nan  # the solver's kernel output buffer is write-only: every row must be written by this call
-            out = o_ind(self, current_density, A_induced_vals, velocity)
+            out = o_ind(self, current_density, A_induced_vals, velocity, *xa, **xk)
             if isinstance(buf, np.ndarray) and np.all(np.isfinite(np.asarray(current_density))):
                 rec.emit("on_induced_buffer", rec.cur, int(np.isnan(buf).any(axis=1).sum()), len(buf))
             if rec.cur is not None:
@@ -181,9 +182,9 @@ class Recorder:
 
         o_kernel = S.get_A_induced_numba
 
-        def w_kernel(J_site, areas, sites, edge_centers, out):
+        def w_kernel(J_site, areas, sites, edge_centers, out, *xa, **xk):
             out[...] = np.nan  # uninitialised-read / partial-write detector
-            o_kernel(J_site, areas, sites, edge_centers, out)
+            o_kernel(J_site, areas, sites, edge_centers, out, *xa, **xk)
             if np.all(np.isfinite(J_site)):
                 left = int(np.isnan(out).sum())
             else:  # diverged iteration: NaN in, NaN out is legitimate
@@ -196,10 +197,10 @@ class Recorder:
         o_link = MeshOperators.set_link_exponents
 
         @functools.wraps(o_link)
-        def w_link(self, link_exponents):
+        def w_link(self, link_exponents, *xa, **xk):
             was_build = self.psi_gradient is None
             A = np.array(link_exponents, copy=True)
-            o_link(self, link_exponents)
+            o_link(self, link_exponents, *xa, **xk)
             rec.emit("on_link", self, A, was_build)
 
         self._patch(MeshOperators, "set_link_exponents", w_link)
@@ -207,12 +208,12 @@ class Recorder:
         o_stage = Runner._run_stage
 
         @functools.wraps(o_stage)
-        def w_stage(self, name, start_time, end_time, save=True):
+        def w_stage(self, name, start_time, end_time, save=True, *xa, **xk):
             rec.stage = name
             rec.runner = self
             rec.emit("on_stage_begin", name, save)
             try:
-                ok = o_stage(self, name, start_time, end_time, save)
+                ok = o_stage(self, name, start_time, end_time, save, *xa, **xk)
             except BaseException as exc:
                 rec.emit("on_stage_end", name, None, exc)
                 raise
@@ -224,14 +225,14 @@ class Recorder:
         o_save = DataHandler.save_time_step
 
         @functools.wraps(o_save)
-        def w_save(self, state, data, running_state):
+        def w_save(self, state, data, running_state, *xa, **xk):
             st = dict(state)
             dd = {k: _copy(v) for k, v in data.items()}
             rs = None if running_state is None else {k: _copy(v) for k, v in running_state.items()}
             rec.emit("on_save_begin", self, st, dd, rs)
             rec.fail("save_entry", stage=rec.stage, step=int(st["step"]), handler=self)
             try:
-                o_save(self, state, data, running_state)
+                o_save(self, state, data, running_state, *xa, **xk)
             except BaseException as exc:
                 rec.emit("on_save_end", self, exc)
                 raise
@@ -243,8 +244,8 @@ class Recorder:
         o_enter = DataHandler.__enter__
 
         @functools.wraps(o_enter)
-        def w_enter(self):
-            r = o_enter(self)
+        def w_enter(self, *xa, **xk):
+            r = o_enter(self, *xa, **xk)
             rec.emit("on_handler_enter", self)
             return r
 
@@ -253,10 +254,10 @@ class Recorder:
         o_close = DataHandler.close
 
         @functools.wraps(o_close)
-        def w_close(self):
+        def w_close(self, *xa, **xk):
             rec.emit("on_handler_closing", self)
             try:
-                return o_close(self)
+                return o_close(self, *xa, **xk)
             finally:
                 rec.emit("on_handler_close", self)
 
